@@ -259,8 +259,17 @@ package region
 //@   trusted "pool discipline: headers are Reset before they are put back (returnHeader), sync.Pool.New yields a zero header"
 //@   modifies nothing
 //@   ensures r0 != nil && r0.CellBlockMeta == nil && r0.Priority == nil
-//@ func region.returnHeader
+// a header goes back to the pool with the fields marshalProto relies on being unset cleared: the getHeader contract
+// above (what the next request starts from) rests on this
+//@ func pb.(*RequestHeader).Reset
+//@   trusted "generated code: *x = RequestHeader{} plus protobuf-internal message state"
 //@   modifies F.pb.RequestHeader.*
+//@   ensures x.CallId == nil && x.TraceInfo == nil && x.MethodName == nil && x.RequestParam == nil && x.CellBlockMeta == nil && x.Priority == nil && x.Timeout == nil
+//@ func region.returnHeader
+//@   requires header != nil
+//@   modifies F.pb.RequestHeader.*
+// (the fields marshalProto sets only conditionally; the others are overwritten for every request)
+//@   at call Put#1 assert[C05] header.CellBlockMeta == nil && header.Priority == nil
 
 //@ func region.marshalProto
 //@   requires rpc != nil
